@@ -276,7 +276,16 @@ fn dryoc_mlock(data: &[u8]) -> Result<(), std::io::Error> {
         let ret = unsafe { c_mlock(data.as_ptr() as *const c_void, data.len()) };
         match ret {
             0 => Ok(()),
-            _ => Err(std::io::Error::last_os_error()),
+            _ => {
+                let err = std::io::Error::last_os_error();
+                // a refused mlock() can leave the range flagged as locked (the kernel
+                // marks it before faulting the pages in, e.g. on a PROT_NONE mapping);
+                // undo that, so that a failed lock leaves no locked pages behind
+                unsafe {
+                    libc::munlock(data.as_ptr() as *const c_void, data.len());
+                }
+                Err(err)
+            }
         }
     }
     #[cfg(windows)]
